@@ -11,7 +11,8 @@ PROPERTY = "C11"
 LEVEL = "exploration"
 RULE = (
     "Hypothesis scheduler inputs in which chains / forks / joins / diamonds / random DAGs of <= 5 tasks are offered wholly or partly "
-    "(release_taskgraphs, lookahead 0-30) with running, scheduled and completed predecessors on 1-2 pools x 1-2 workers, for ILP, "
+    "(release_taskgraphs, lookahead 0-30) with running (also overrunning), scheduled (also re-decided under retraction), withdrawn "
+    "and completed predecessors on 1-2 pools x 1-2 workers, for ILP, "
     "TetriSched-Gurobi and Z3. The returned plan and, for the Gurobi-backed planners, up to 200 feasible points of the captured model "
     "(solution pool, zero objective) plus an adversarial re-solve that maximises (parent end - child start) are decoded through the "
     "scheduler's own variables. Non-trivial = an invocation in which >= 1 parent/child pair is decided together or a child is decided "
